@@ -74,6 +74,31 @@ func (x *e5) fail(pos token.Pos, f string, a ...any) {
 }
 
 func (x *e5) atom(e ast.Expr) fT {
+	// a helper parameter stands for the caller's argument expression
+	{
+		inner := unparen(e)
+		for {
+			call, ok := inner.(*ast.CallExpr)
+			if !ok || len(call.Args) != 1 {
+				break
+			}
+			if tv, ok := x.info.Types[call.Fun]; !ok || !tv.IsType() {
+				break
+			}
+			inner = unparen(call.Args[0])
+		}
+		if id, ok := inner.(*ast.Ident); ok {
+			if o := objOf(x.info, id); o != nil {
+				if b, ok := x.bind[o]; ok {
+					saved, savedFn := x.info, x.fn
+					x.info, x.fn = x.binfo[o], x.bfn[o]
+					a := x.atom(b)
+					x.info, x.fn = saved, savedFn
+					return a
+				}
+			}
+		}
+	}
 	txt := strings.ReplaceAll(exprString(e), " ", "")
 	var typ types.Type
 	if tv, ok := x.info.Types[e]; ok {
@@ -552,7 +577,9 @@ func (x *e5) builderWrites(list []ast.Stmt, o types.Object, info *types.Info) []
 							continue
 						}
 					}
-					x.fail(call.Pos(), "buffer passed to a function that cannot be inlined")
+					if f := calleeOf(x.info, call); f != nil && f.Pkg() != nil && strings.HasPrefix(f.Pkg().Path(), thanosMod) {
+						x.fail(call.Pos(), "buffer passed to a function that cannot be inlined")
+					}
 				}
 			case *ast.IfStmt:
 				sub := walk(s.Body.List)
@@ -805,4 +832,53 @@ func atomNames(ts []fT, out map[string]bool) {
 		}
 		atomNames(t.Sub, out)
 	}
+}
+
+// decodableAll lists every ambiguity of a term: after reporting one, the offending atom is
+// treated as self-delimiting and the check is repeated, so that each defect gets its own
+// descriptor (a repaired defect does not unmask or hide the others).
+func decodableAll(ts []fT) []string {
+	cp := cloneTerms(ts)
+	var out []string
+	for i := 0; i < 12; i++ {
+		ok, why := decodable(cp)
+		if ok {
+			break
+		}
+		out = append(out, why)
+		w := why
+		for _, pre := range []string{"hash input: ", "repeated item: "} {
+			w = strings.TrimPrefix(w, pre)
+		}
+		first := w
+		if j := strings.Index(w, "|"); j >= 0 {
+			first = w[:j]
+		}
+		if !quoteFirst(cp, first) {
+			break
+		}
+	}
+	return out
+}
+
+func cloneTerms(ts []fT) []fT {
+	out := make([]fT, len(ts))
+	for i, t := range ts {
+		out[i] = t
+		out[i].Sub = cloneTerms(t.Sub)
+	}
+	return out
+}
+
+func quoteFirst(ts []fT, atomStr string) bool {
+	for i := range ts {
+		if ts[i].K == fAtom && ts[i].String() == atomStr {
+			ts[i].Class = "quoted"
+			return true
+		}
+		if quoteFirst(ts[i].Sub, atomStr) {
+			return true
+		}
+	}
+	return false
 }
